@@ -17,6 +17,8 @@ func init() {
 }
 
 func runC10(c *Ctx) {
+	defer checkIsPublic(c, "C10.R7")
+	defer checkConfigGetters(c, "C10.R6", "GetGrantTypeJWTBearerCanSkipClientAuth", "GetClientAuthenticationStrategy", "GetSecretsHasher")
 	c10R1(c)
 	c10R2(c)
 	c10R3(c)
